@@ -696,6 +696,23 @@ func (tg *treeGen) genExt() {
 	for _, ns := range tg.nss {
 		tg.home[ns] = tables[tg.rng.Intn(len(tables))]
 	}
+	// some external scopes wait for a namespace themselves (chains S -> na:X -> nb:Y, and cycles when the
+	// namespace's table is the scope's own)
+	for _, name := range tables {
+		if tg.rng.Intn(3) != 0 {
+			continue
+		}
+		sc := tg.ext[name]
+		o := sc.Sub[tg.rng.Intn(len(sc.Sub))]
+		ns := tg.nss[tg.rng.Intn(len(tg.nss))]
+		hid := ids(tg.ext[tg.home[ns]])
+		r := refT(tg.tag("e"), ns, hid[tg.rng.Intn(len(hid))])
+		var t *T = r
+		if tg.rng.Intn(2) == 0 {
+			t = listOf(r)
+		}
+		o.Props = append(o.Props, P{Name: "nz", Type: t})
+	}
 }
 
 func (tg *treeGen) genRef(scopeIDs []string) *T {
@@ -833,9 +850,16 @@ func runRand(c *caseT) *resT {
 		}
 		return out
 	}
+	targets := append([]*T{}, order...)
+	for _, g := range s.extNS {
+		targets = append(targets, s.w.scopeAST[g])
+	}
 	for i, k := 0, 2+tg.rng.Intn(7); i < k; i++ {
-		sc := order[tg.rng.Intn(len(order))]
-		if tg.rng.Intn(2) == 0 {
+		sc := targets[tg.rng.Intn(len(targets))]
+		if !s.inTree[sc.Tag] && tg.rng.Intn(2) == 0 {
+			continue // (re-applying an external scope to itself is not part of the model's calls)
+		}
+		if s.inTree[sc.Tag] && tg.rng.Intn(2) == 0 {
 			if !record(actT{Op: "self", Scope: sc.Tag}) {
 				return res
 			}
@@ -852,6 +876,11 @@ func runRand(c *caseT) *resT {
 	for _, ns := range tg.nss {
 		if !record(actT{Op: "ns", Scope: tree.Tag, NS: ns, Table: tg.home[ns]}) {
 			return res
+		}
+		for _, g := range s.extNS {
+			if !record(actT{Op: "ns", Scope: g, NS: ns, Table: tg.home[ns]}) {
+				return res
+			}
 		}
 	}
 	p, inl := buildPair(res, tree, tg.ext, tg.home, 2, nil)
